@@ -1,18 +1,18 @@
 #!/bin/bash
 # confirm_mutant.sh <seeded-id>: in the scratch worktree /tmp/confirm (own build dir), apply seeded/<id>/patch.diff,
 # rebuild the whole suite (-k 0), require no failing target other than the two boost ones, run ctest, then compile and run
-# the demonstration with and without the change.  Writes /tmp/confirm.<id>.result.  The worktree is restored afterwards.
-ID=$1; S=/verif/seeded/$ID; W=/tmp/confirm; R=/tmp/confirm.$ID.result
+# the demonstration with and without the change (CONFIRM_WT=<dir> selects another worktree, so that several can run side by side).  Writes /tmp/confirm.<id>.result.  The worktree is restored afterwards.
+ID=$1; S=/verif/seeded/$ID; W=${CONFIRM_WT:-/tmp/confirm}; R=/tmp/confirm.$ID.result
 set -u
 if [ ! -d $W ]; then git -C /repo worktree add -q $W HEAD || exit 2; fi
 git -C $W checkout -q --detach $(git -C /repo rev-parse HEAD) && git -C $W checkout -q -- . 
-[ -d $W/_build ] || cmake -G Ninja -S $W -B $W/_build -DCMAKE_BUILD_TYPE=RelWithDebInfo -DCMAKE_CXX_FLAGS=-Wno-error > /tmp/confirm.cmake.log 2>&1
+[ -d $W/_build ] || cmake -G Ninja -S $W -B $W/_build -DCMAKE_BUILD_TYPE=RelWithDebInfo -DCMAKE_CXX_FLAGS=-Wno-error > /tmp/confirm.$ID.cmake.log 2>&1
 CXX=$(grep -o 'clang++\|g++' $S/demo.cpp | head -1); CXX=${CXX:-g++}
 DEMOFLAGS="$(grep -o '\-O[0-3s]' $S/demo.cpp | head -1) $(head -1 $S/demo.cpp | grep -o '\-D[A-Z_]*' | tr '\n' ' ')"
 # demo on the original
-$CXX -std=gnu++20 $DEMOFLAGS -I$W/include $S/demo.cpp -o /tmp/confirm.demo.orig > /tmp/confirm.demo.orig.log 2>&1; timeout 60 /tmp/confirm.demo.orig > /tmp/confirm.demo.orig.out 2>&1; ORIG=$?
+$CXX -std=gnu++20 $DEMOFLAGS -I$W/include $S/demo.cpp -o /tmp/confirm.$ID.demo.orig > /tmp/confirm.$ID.demo.orig.log 2>&1; timeout 60 /tmp/confirm.$ID.demo.orig > /tmp/confirm.$ID.demo.orig.out 2>&1; ORIG=$?
 git -C $W apply $S/patch.diff || { echo "RESULT=patch-does-not-apply" > $R; exit 1; }
-$CXX -std=gnu++20 $DEMOFLAGS -I$W/include $S/demo.cpp -o /tmp/confirm.demo.mut > /tmp/confirm.demo.mut.log 2>&1; timeout 60 /tmp/confirm.demo.mut > /tmp/confirm.demo.mut.out 2>&1; MUT=$?
+$CXX -std=gnu++20 $DEMOFLAGS -I$W/include $S/demo.cpp -o /tmp/confirm.$ID.demo.mut > /tmp/confirm.$ID.demo.mut.log 2>&1; timeout 60 /tmp/confirm.$ID.demo.mut > /tmp/confirm.$ID.demo.mut.out 2>&1; MUT=$?
 nice -n 5 ninja -C $W/_build -j ${JOBS:-12} -k 0 > /tmp/confirm.$ID.build.log 2>&1
 BAD=$(grep '^FAILED:' /tmp/confirm.$ID.build.log | grep -v -e 'test-unit-index' -e 'test-unit-boost.multiprecision' | sort -u | head -5)
 ctest --test-dir $W/_build -j8 --timeout 900 > /tmp/confirm.$ID.ctest.log 2>&1
